@@ -117,11 +117,42 @@ func runSem(sc *SemCase) *Result {
 			sem.Release(1)
 			held--
 			if len(queue) > 0 {
-				w := queue[0]
-				queue = queue[1:]
-				ok = expect(w, false, "Release with a queued waiter")
-				held++
-				ops = append(ops, fmt.Sprintf("r:%d", w))
+				// exactly one queued waiter must be woken.  It is the first of the real FIFO; the shadow
+				// queue is in the order in which the harness ISSUED the blocking calls, which can differ
+				// when two of its goroutines enqueued themselves in the other order: any queued waiter
+				// is accepted here, the model runner then reports the script as UNJUDGED (enqueue-order)
+				woken, at := -1, -1
+				deadline := time.Now().Add(semWait)
+				for woken < 0 && time.Now().Before(deadline) {
+					for k, w := range queue {
+						select {
+						case err := <-ws[w].ch:
+							if err != nil {
+								fail("sem-wrong-result", fmt.Sprintf("Release with queued waiters: waiter %d returned err=%v", w, err))
+								ok = false
+							}
+							woken, at = w, k
+						default:
+						}
+						if woken >= 0 {
+							break
+						}
+					}
+					if woken < 0 {
+						time.Sleep(100 * time.Microsecond)
+					}
+				}
+				if woken < 0 {
+					fail("sem-lost-wakeup", fmt.Sprintf("Release with %d queued waiters: none returned within %v (held %d of %d)", len(queue), semWait, held, sc.Size))
+					ok = false
+				} else {
+					if at != 0 {
+						res.Counts = append(res.Counts, "sem-enqueue-order-race")
+					}
+					queue = append(append([]int(nil), queue[:at]...), queue[at+1:]...)
+					held++
+					ops = append(ops, fmt.Sprintf("r:%d", woken))
+				}
 			} else {
 				ops = append(ops, "r:-")
 			}
